@@ -112,15 +112,19 @@ type recallWantlist struct {
 	pending *bswl.Wantlist
 	// The list of wants that have been sent
 	sent *bswl.Wantlist
-	// The time at which each want was sent
+	// The time at which each want was sent, until the first response for it
+	// arrives (message latency measurement)
 	sentAt map[cid.Cid]time.Time
+	// The time at which each want on the sent list was last sent (rebroadcast)
+	lastSent map[cid.Cid]time.Time
 }
 
 func newRecallWantList() recallWantlist {
 	return recallWantlist{
-		pending: bswl.New(),
-		sent:    bswl.New(),
-		sentAt:  make(map[cid.Cid]time.Time),
+		pending:  bswl.New(),
+		sent:     bswl.New(),
+		sentAt:   make(map[cid.Cid]time.Time),
+		lastSent: make(map[cid.Cid]time.Time),
 	}
 }
 
@@ -134,6 +138,7 @@ func (r *recallWantlist) remove(c cid.Cid) {
 	r.pending.Remove(c)
 	r.sent.Remove(c)
 	delete(r.sentAt, c)
+	delete(r.lastSent, c)
 }
 
 // remove wants by type from both the pending list and the list of sent wants
@@ -142,6 +147,7 @@ func (r *recallWantlist) removeType(c cid.Cid, wtype pb.Message_Wantlist_WantTyp
 	r.sent.RemoveType(c, wtype)
 	if !r.sent.Has(c) {
 		delete(r.sentAt, c)
+		delete(r.lastSent, c)
 	}
 }
 
@@ -172,6 +178,7 @@ func (r *recallWantlist) setSentAt(c cid.Cid, at time.Time) {
 		if _, ok := r.sentAt[c]; !ok {
 			r.sentAt[c] = at
 		}
+		r.lastSent[c] = at
 	}
 }
 
@@ -193,8 +200,11 @@ func (r *recallWantlist) refresh(now time.Time, interval time.Duration) int {
 	var refreshed int
 	for _, want := range r.sent.Entries() {
 		wantCid := want.Cid
-		sentAt, ok := r.sentAt[wantCid]
-		if ok && now.Sub(sentAt) >= interval {
+		// A want stays eligible after the peer has answered it (clearSentAt):
+		// as long as it is on the sent list the client still counts on the peer
+		// having it, and the peer forgets a want once it has sent the block.
+		lastSent, ok := r.lastSent[wantCid]
+		if ok && now.Sub(lastSent) >= interval {
 			r.pending.Add(wantCid, want.Priority, want.WantType)
 			refreshed++
 		}
